@@ -24,8 +24,16 @@ pub open spec fn graph_ok<K, N, E>(adj: spec_fn(Node<K, N, E>) -> Seq<Edge<K, N,
     &&& forall|n: Node<K, N, E>, i: int| universe::<K, N, E>().contains(n) && 0 <= i < adj(n).len() ==> universe::<K, N, E>().contains((#[trigger] adj(n)[i]).1)
     &&& keys_distinct::<K, N, E>()
 }
+#[verifier::opaque]
 pub open spec fn keys_distinct<K, N, E>() -> bool {
     forall|a: Node<K, N, E>, b: Node<K, N, E>| universe::<K, N, E>().contains(a) && universe::<K, N, E>().contains(b) && a.k() == b.k() ==> a == b
+}
+
+pub proof fn lemma_keys<K, N, E>(a: Node<K, N, E>, b: Node<K, N, E>)
+    requires keys_distinct::<K, N, E>(), universe::<K, N, E>().contains(a), universe::<K, N, E>().contains(b), a.k() == b.k()
+    ensures a == b
+{
+    reveal(keys_distinct);
 }
 
 pub open spec fn in_adj<K, N, E>(e: Edge<K, N, E>, adj: spec_fn(Node<K, N, E>) -> Seq<Edge<K, N, E>>) -> bool {
@@ -181,6 +189,7 @@ pub proof fn lemma_frontier_grow<K, N, E>(vis: Set<K>, root: Node<K, N, E>, q: S
     requires graph_ok(adj), universe::<K, N, E>().contains(v), frontier_ok(vis, root, q, Some(cur), acc, adj)
     ensures frontier_ok(vis.insert(v.k()), root, q.push(v), Some(cur), acc, adj)
 {
+    reveal(keys_distinct);
     let vis2 = vis.insert(v.k());
     let q2 = q.push(v);
     assert forall|n: Node<K, N, E>| #[trigger] universe::<K, N, E>().contains(n) && (vis2.contains(n.k()) || n == root) implies q2.contains(n) || Some(cur) == Some(n) || closed_at(n, vis2, acc, adj) by {
@@ -192,6 +201,7 @@ pub proof fn lemma_frontier_grow<K, N, E>(vis: Set<K>, root: Node<K, N, E>, q: S
 }
 
 // ---- paths and reachability (defined without reference to the code) ----
+#[verifier::opaque]
 pub open spec fn is_path<K, N, E>(p: Seq<Edge<K, N, E>>, a: Node<K, N, E>, acc: spec_fn(Edge<K, N, E>) -> bool, adj: spec_fn(Node<K, N, E>) -> Seq<Edge<K, N, E>>) -> bool {
     &&& p.len() > 0
     &&& p[0].0 == a
@@ -210,6 +220,7 @@ pub proof fn lemma_closed_path<K, N, E>(vis: Set<K>, root: Node<K, N, E>, acc: s
     ensures vis.contains(p[i].1.k()), universe::<K, N, E>().contains(p[i].1), universe::<K, N, E>().contains(p[i].0)
     decreases i
 {
+    reveal(is_path); reveal(keys_distinct);
     if i > 0 {
         lemma_closed_path(vis, root, acc, adj, p, i - 1);
         assert(p[i - 1].1 == p[i].0);
@@ -227,6 +238,7 @@ pub proof fn lemma_closed_unreachable<K, N, E>(vis: Set<K>, root: Node<K, N, E>,
     requires graph_ok(adj), universe::<K, N, E>().contains(root), all_closed(vis, root, acc, adj), !vis.contains(k)
     ensures !reach(root, k, acc, adj)
 {
+    reveal(is_path);
     reveal(reach);
     if reach(root, k, acc, adj) {
         let p = choose|p: Seq<Edge<K, N, E>>| is_path(p, root, acc, adj) && p.last().1.k() == k;
@@ -255,6 +267,7 @@ pub proof fn lemma_path_in_uni<K, N, E>(a: Node<K, N, E>, acc: spec_fn(Edge<K, N
     ensures universe::<K, N, E>().contains(p[i].0), universe::<K, N, E>().contains(p[i].1)
     decreases i
 {
+    reveal(is_path); reveal(keys_distinct);
     if i > 0 {
         lemma_path_in_uni(a, acc, adj, p, i - 1);
         assert(p[i - 1].1 == p[i].0);
@@ -274,6 +287,7 @@ pub proof fn lemma_reach_step<K, N, E>(root: Node<K, N, E>, acc: spec_fn(Edge<K,
         reach0(root, e.0.k(), acc, adj), in_adj(e, adj), acc(e),
     ensures reach(root, e.1.k(), acc, adj)
 {
+    reveal(is_path); reveal(keys_distinct);
     reveal(reach);
     if e.0.k() == root.k() {
         assert(e.0 == root);
@@ -303,6 +317,7 @@ pub proof fn lemma_path_reach<K, N, E>(root: Node<K, N, E>, acc: spec_fn(Edge<K,
     requires is_path(p, root, acc, adj)
     ensures reach(root, p.last().1.k(), acc, adj)
 {
+    reveal(is_path); reveal(keys_distinct);
     reveal(reach);
 }
 
@@ -337,6 +352,7 @@ pub proof fn lemma_frontier_p_grow<K, N, E>(vis: Set<K>, root: Node<K, N, E>, pe
         forall|n: Node<K, N, E>| #[trigger] pend0(n) ==> pend1(n), pend1(v)
     ensures frontier_p(vis.insert(v.k()), root, pend1, Some(cur), acc, adj)
 {
+    reveal(keys_distinct);
     let vis2 = vis.insert(v.k());
     assert forall|n: Node<K, N, E>| #[trigger] universe::<K, N, E>().contains(n) && (vis2.contains(n.k()) || n == root) implies pend1(n) || Some(cur) == Some(n) || closed_at(n, vis2, acc, adj) by {
         if n.k() == v.k() { assert(n == v); }
@@ -350,6 +366,7 @@ pub proof fn lemma_pfs_start<K, N, E>(vis: Set<K>, root: Node<K, N, E>, acc: spe
     requires keys_distinct::<K, N, E>(), universe::<K, N, E>().contains(root), forall|k: K| vis.contains(k) ==> k == root.k()
     ensures forall|pend: spec_fn(Node<K, N, E>) -> bool| pend(root) ==> #[trigger] frontier_p(vis, root, pend, None, acc, adj)
 {
+    reveal(keys_distinct);
     assert forall|pend: spec_fn(Node<K, N, E>) -> bool| pend(root) implies #[trigger] frontier_p(vis, root, pend, None, acc, adj) by {
         assert forall|n: Node<K, N, E>| #[trigger] universe::<K, N, E>().contains(n) && (vis.contains(n.k()) || n == root) implies pend(n) || None::<Node<K, N, E>> == Some(n) || closed_at(n, vis, acc, adj) by {
             assert(n == root);
@@ -369,4 +386,108 @@ pub proof fn lemma_tree_reach<K, N, E>(r: Seq<Edge<K, N, E>>, root: Node<K, N, E
         lemma_tree_reach(r, root, acc, adj, j);
     }
     lemma_reach_step(root, acc, adj, r[i]);
+}
+
+// ---- orderings (C10) ----
+// the targets of r are exactly the keys reachable from the root (other than the root's own key)
+pub open spec fn covers_reach<K, N, E>(r: Seq<Edge<K, N, E>>, root: Node<K, N, E>, acc: spec_fn(Edge<K, N, E>) -> bool, adj: spec_fn(Node<K, N, E>) -> Seq<Edge<K, N, E>>) -> bool {
+    forall|k: K| (exists|i: int| 0 <= i < r.len() && (#[trigger] r[i]).1.k() == k) <==> (k != root.k() && #[trigger] reach(root, k, acc, adj))
+}
+
+// finishing-order edge list: existing accepted edges, one per target, each starting at the root
+// or at a target that is recorded LATER (a node is finished after all its tree children)
+#[verifier::opaque]
+pub open spec fn ptree<K, N, E>(r: Seq<Edge<K, N, E>>, root: Node<K, N, E>, acc: spec_fn(Edge<K, N, E>) -> bool, adj: spec_fn(Node<K, N, E>) -> Seq<Edge<K, N, E>>) -> bool {
+    &&& forall|i: int| 0 <= i < r.len() ==> universe::<K, N, E>().contains((#[trigger] r[i]).0) && in_adj(r[i], adj) && acc(r[i])
+    &&& forall|i: int, j: int| 0 <= i < j < r.len() ==> (#[trigger] r[i]).1.k() != (#[trigger] r[j]).1.k()
+    &&& forall|i: int| 0 <= i < r.len() ==> (#[trigger] r[i]).0 == root || exists|j: int| i < j < r.len() && r[j].1 == r[i].0
+}
+
+// the edges recorded from index `from` on, during the expansion of `top`
+pub open spec fn pedges<K, N, E>(r: Seq<Edge<K, N, E>>, from: int, top: Node<K, N, E>, acc: spec_fn(Edge<K, N, E>) -> bool, adj: spec_fn(Node<K, N, E>) -> Seq<Edge<K, N, E>>) -> bool {
+    &&& forall|i: int| from <= i < r.len() ==> universe::<K, N, E>().contains((#[trigger] r[i]).0) && in_adj(r[i], adj) && acc(r[i])
+    &&& forall|i: int| from <= i < r.len() ==> (#[trigger] r[i]).0 == top || exists|j: int| i < j < r.len() && r[j].1 == r[i].0
+}
+
+// all recorded targets are pairwise distinct (by key)
+pub open spec fn distinct_targets<K, N, E>(r: Seq<Edge<K, N, E>>) -> bool {
+    forall|i: int, j: int| 0 <= i < j < r.len() ==> (#[trigger] r[i]).1.k() != (#[trigger] r[j]).1.k()
+}
+
+pub proof fn lemma_distinct_push<K, N, E>(vis: Set<K>, r: Seq<Edge<K, N, E>>, e: Edge<K, N, E>)
+    requires distinct_targets(r), vis_sup(vis, r), !vis.contains(e.1.k())
+    ensures distinct_targets(r.push(e))
+{
+    let r2 = r.push(e);
+    assert forall|i: int, j: int| 0 <= i < j < r2.len() implies (#[trigger] r2[i]).1.k() != (#[trigger] r2[j]).1.k() by {
+        if j < r.len() { assert(r2[i] == r[i] && r2[j] == r[j]); } else { assert(r2[i] == r[i]); assert(vis.contains(r[i].1.k())); }
+    }
+}
+
+// tree targets are reachable; a closed visited set contains everything reachable
+pub proof fn lemma_covers_reach<K, N, E>(vis: Set<K>, r: Seq<Edge<K, N, E>>, root: Node<K, N, E>, acc: spec_fn(Edge<K, N, E>) -> bool, adj: spec_fn(Node<K, N, E>) -> Seq<Edge<K, N, E>>)
+    requires graph_ok(adj), universe::<K, N, E>().contains(root), all_closed(vis, root, acc, adj),
+        ext(set![root.k()], Seq::<Edge<K, N, E>>::empty(), vis, r),
+        forall|i: int| 0 <= i < r.len() ==> #[trigger] reach(root, r[i].1.k(), acc, adj),
+    ensures covers_reach(r, root, acc, adj)
+{
+    reveal(ext);
+    assert forall|k: K| (exists|i: int| 0 <= i < r.len() && (#[trigger] r[i]).1.k() == k) <==> (k != root.k() && #[trigger] reach(root, k, acc, adj)) by {
+        if exists|i: int| 0 <= i < r.len() && (#[trigger] r[i]).1.k() == k {
+            let i = choose|i: int| 0 <= i < r.len() && (#[trigger] r[i]).1.k() == k;
+            assert(reach(root, r[i].1.k(), acc, adj));
+            assert(!set![root.k()].contains(r[i].1.k()));
+        }
+        if k != root.k() && reach(root, k, acc, adj) {
+            if !vis.contains(k) { lemma_closed_unreachable(vis, root, acc, adj, k); }
+            assert(vis.contains(k));
+        }
+    }
+}
+
+// in a finishing-order list every target is reachable from the root as well
+pub proof fn lemma_ptree_reach<K, N, E>(r: Seq<Edge<K, N, E>>, root: Node<K, N, E>, acc: spec_fn(Edge<K, N, E>) -> bool, adj: spec_fn(Node<K, N, E>) -> Seq<Edge<K, N, E>>, i: int)
+    requires graph_ok(adj), universe::<K, N, E>().contains(root), ptree(r, root, acc, adj), 0 <= i < r.len()
+    ensures reach(root, r[i].1.k(), acc, adj)
+    decreases r.len() - i
+{
+    reveal(ptree);
+    if r[i].0 != root {
+        let j = choose|j: int| i < j < r.len() && r[j].1 == r[i].0;
+        lemma_ptree_reach(r, root, acc, adj, j);
+    }
+    lemma_reach_step(root, acc, adj, r[i]);
+}
+
+pub open spec fn dtargets4<K, N, E>(r: Seq<Edge<K, N, E>>, root: Node<K, N, E>, acc: spec_fn(Edge<K, N, E>) -> bool, adj: spec_fn(Node<K, N, E>) -> Seq<Edge<K, N, E>>) -> bool {
+    distinct_targets(r)
+}
+
+// postorder step: v was marked visited first (v0 -> v0+{v}), the recursive call extended
+// (v0+{v}, r0) to (v2, r2), then the edge into v is recorded
+pub proof fn lemma_ext_post_step<K, N, E>(v0: Set<K>, r0: Seq<Edge<K, N, E>>, v2: Set<K>, r2: Seq<Edge<K, N, E>>, e: Edge<K, N, E>)
+    requires !v0.contains(e.1.k()), ext(v0.insert(e.1.k()), r0, v2, r2)
+    ensures ext(v0, r0, v2, r2.push(e))
+{
+    reveal(ext);
+    let vk = e.1.k();
+    let r3 = r2.push(e);
+    assert(r3.take(r0.len() as int) =~= r2.take(r0.len() as int));
+    assert forall|k: K| v2.contains(k) <==> (v0.contains(k) || exists|i: int| r0.len() <= i < r3.len() && (#[trigger] r3[i]).1.k() == k) by {
+        if v2.contains(k) {
+            if k == vk { assert(r3[r2.len() as int].1.k() == k); }
+            else if !v0.contains(k) {
+                let i = choose|i: int| r0.len() <= i < r2.len() && (#[trigger] r2[i]).1.k() == k;
+                assert(r3[i] == r2[i]);
+            }
+        } else {
+            if exists|i: int| r0.len() <= i < r3.len() && (#[trigger] r3[i]).1.k() == k {
+                let i = choose|i: int| r0.len() <= i < r3.len() && (#[trigger] r3[i]).1.k() == k;
+                if i < r2.len() { assert(r3[i] == r2[i]); }
+            }
+        }
+    }
+    assert forall|i: int| r0.len() <= i < r3.len() implies !v0.contains((#[trigger] r3[i]).1.k()) by {
+        if i < r2.len() { assert(r3[i] == r2[i]); }
+    }
 }
